@@ -58,6 +58,9 @@ func relsOf(g Guard) []Rel {
 	a := c.CallArgsT()
 	name := c.Name
 	dot := strings.LastIndex(name, ".")
+	if dot < 0 {
+		return nil
+	}
 	recv, m := name[:dot], name[dot+1:]
 	switch recv {
 	case "math.LegacyDec", "math.Int", "sdk.Coin", "sdk.DecCoin":
